@@ -92,6 +92,9 @@ def check_get_closest(ctx: Ctx, case):
     sub = "get_closest"
     grid = np.array(case["grid"], dtype=float)
     values = np.array(case["values"], dtype=float)
+    if not (np.all(np.isfinite(grid)) and np.all(np.isfinite(values))):
+        ctx.exclude("non-finite grid or value (outside the property's domain)")
+        return
     g0, v0 = grid.copy(), values.copy()
     with guard(ctx, "C17/exception", sub, case):
         out = get_closest(grid, values)
@@ -153,6 +156,9 @@ def check_digitize(ctx: Ctx, case):
     grids_ = [np.array(g, dtype=float) for g in case["grids"]]
     d = len(grids_)
     data = np.array(case["data"], dtype=float).reshape(-1, d)
+    if not (all(np.all(np.isfinite(g)) for g in grids_) and np.all(np.isfinite(data))):
+        ctx.exclude("non-finite grid or value (outside the property's domain)")
+        return
     dt = case.get("dtype", "float64")
     if dt != "float64":   # the caller's array need not be float64: values are first made representable in that type
         with np.errstate(all="ignore"):
